@@ -372,24 +372,31 @@ def run_history(case):
     use_bounds(case)
     names = ['a', 'b', 'c'][:dim]
     gp = GPyRegression(names, bounds={k: BOUNDS[dim][i] for i, k in enumerate(names)}, max_opt_iters=10)
-    refX = np.zeros((0, dim))
-    refY = np.zeros((0, 1))
     q = np.array([[0.3, 0.9][:dim]])
     nupd = 0
     what = {'case': case}
+    # surrogate objects alive in this history: [object, reference X, reference Y]; 'copy' adds one and continues on it,
+    # 'swap' continues on the next one; 'predict' judges every object (a copy and its original are independent
+    # surrogates from the moment of the copy)
+    objs = [[gp, np.zeros((0, dim)), np.zeros((0, 1))]]
+    cur = 0
     for op in case['history']:
         k = op[0]
+        gp, refX, refY = objs[cur]
         if k == 'update':
             X, y = batch_for(dim, op[1], nupd)
             nupd += 1
             gp.update(np.array(X, copy=True), np.array(y, copy=True), optimize=bool(op[2]) if len(op) > 2 else False)
             refX = np.vstack([refX, np.asarray(X).reshape(-1, dim)])
             refY = np.vstack([refY, np.asarray(y).reshape(-1, 1)])
-            if gp.n_evidence != len(refX):
-                return bad('C10:update:n_evidence', dict(what, got=int(gp.n_evidence), expected=len(refX)))
-            if not (np.array_equal(np.asarray(gp.X), refX) and np.array_equal(np.asarray(gp.Y), refY)):
-                return bad('C10:update:earlier-evidence-changed-or-reordered', dict(what, X=np.asarray(gp.X).tolist(),
-                                                                                  expected=refX.tolist()))
+            objs[cur][1:] = [refX, refY]
+            for j, (g_, rx, ry) in enumerate(objs):
+                tag = '' if j == cur else ':of-another-surrogate-object'
+                if g_.n_evidence != len(rx):
+                    return bad('C10:update:n_evidence' + tag, dict(what, got=int(g_.n_evidence), expected=len(rx)))
+                if len(rx) and not (np.array_equal(np.asarray(g_.X), rx) and np.array_equal(np.asarray(g_.Y), ry)):
+                    return bad('C10:update:earlier-evidence-changed-or-reordered' + tag,
+                               dict(what, X=np.asarray(g_.X).tolist(), expected=rx.tolist()))
         elif k == 'optimize':
             if gp.n_evidence:
                 gp.optimize()
@@ -397,22 +404,31 @@ def run_history(case):
             gp.is_sampling = True
         elif k == 'off':
             gp.is_sampling = False
+        elif k == 'copy':
+            objs.append([gp.copy(), refX.copy(), refY.copy()])
+            cur = len(objs) - 1
+        elif k == 'swap':
+            cur = (cur + 1) % len(objs)
         elif k == 'predict':
-            if gp.n_evidence == 0:
-                continue
-            m, v = gp.predict(q)
-            gm, gv = gp.predictive_gradients(q)
-            m0, v0 = gp._gp.predict(q)
-            gm0, gv0 = gp._gp.predictive_gradients(q)
-            scale = float(gp._gp.kern.rbf.variance[0] + gp._gp.kern.bias.variance[0])
-            tol = dict(rtol=1e-6, atol=1e-6 * scale)
-            if not (np.allclose(m, m0, **tol) and np.allclose(v, v0, **tol)):
-                return bad('C10:fastpath:stale-or-wrong-prediction-after-history',
-                           dict(what, mean=np.ravel(m).tolist(), gpy_mean=np.ravel(m0).tolist(),
-                                var=np.ravel(v).tolist(), gpy_var=np.ravel(v0).tolist()))
-            if not (np.allclose(gm, gm0[:, :, 0], rtol=1e-5, atol=1e-5 * scale)
-                    and np.allclose(gv, gv0, rtol=1e-5, atol=1e-5 * scale)):
-                return bad('C10:fastpath:stale-or-wrong-gradient-after-history', what)
+            for j, (g_, rx, ry) in enumerate(objs):
+                if g_.n_evidence == 0:
+                    continue
+                tag = '' if len(objs) == 1 else ':with-a-copy-alive'
+                m, v = g_.predict(q)
+                gm, gv = g_.predictive_gradients(q)
+                m0, v0 = g_._gp.predict(q)
+                gm0, gv0 = g_._gp.predictive_gradients(q)
+                scale = float(g_._gp.kern.rbf.variance[0] + g_._gp.kern.bias.variance[0])
+                tol = dict(rtol=1e-6, atol=1e-6 * scale)
+                if np.shape(m) != np.shape(m0) or np.shape(v) != np.shape(v0) or \
+                        not (np.allclose(m, m0, **tol) and np.allclose(v, v0, **tol)):
+                    return bad('C10:fastpath:stale-or-wrong-prediction-after-history' + tag,
+                               dict(what, mean=np.ravel(m).tolist(), gpy_mean=np.ravel(m0).tolist(),
+                                    var=np.ravel(v).tolist(), gpy_var=np.ravel(v0).tolist(), object=j))
+                if not (np.allclose(gm, gm0[:, :, 0], rtol=1e-5, atol=1e-5 * scale)
+                        and np.allclose(gv, gv0, rtol=1e-5, atol=1e-5 * scale)):
+                    return bad('C10:fastpath:stale-or-wrong-gradient-after-history' + tag, dict(what, object=j))
+    refX, refY = objs[0][1], objs[0][2]
     return ok(outcome=digest((refX, refY)))
 
 
@@ -468,6 +484,14 @@ def run(ctx):
         if not q:
             hcases.append({'kind': 'history', 'dim': dim, 'history': [['update', '2xd', 1], ['on'], ['predict'], ['off'],
                                                                       ['update', '2xd', 1], ['on'], ['predict']]})
+        # (c) a copy of a surrogate whose fast path was used: every continuation over the two objects
+        alphabet_c = alphabet + [['swap']]
+        for L in range(1, 4 if q else 5):
+            for seq in itertools.product(alphabet_c, repeat=L):
+                if seq[-1][0] != 'predict':
+                    continue
+                hcases.append({'kind': 'history', 'dim': dim, 'history': [['update', '2xd'], ['on'], ['predict'], ['copy']]
+                               + [list(o) for o in seq]})
     ecases = [{'kind': 'extract', 'order': order, 'surrogate': sur, 'via': via, 'seed': sd, 'n0': 12, 'threshold': thr}
               for order, sur in ((['a', 'b'], 'default'), (['a', 'b'], 'given'), (['b', 'a'], 'given'))
               for via, thr in (('fit', None), ('extract', None), ('extract', 0.3))
@@ -479,7 +503,7 @@ def run(ctx):
                 'for binary-fraction and for decimal bounds; '
                 'evaluations = judged (GP, threshold, point) triples; extract-posterior: BOLFI.fit / extract_posterior on a '
                 'two-parameter model with default and user-given surrogates (parameter order a,b and b,a); histories: every update sequence of depth <= 3 over '
-                'three batch shapes, and every interleaving of update / sampling-mode on / off / predict up to the depth; '
+                'three batch shapes, and every interleaving of update / sampling-mode on / off / predict / optimize up to the depth, also over a surrogate and its copy (copy after the fast path was used, then every continuation on either object); '
                 'distinct by construction')
     ctx.assumptions += [
         'reference mean/variance/gradients come from the underlying GPy model object (model._gp.predict / predictive_gradients)',
